@@ -21,7 +21,7 @@
    exactly as in ast.go.                                                               *)
 EXTENDS EvalSem, TimeSem, Ast
 
-DevAll  == [uns |-> TRUE, tse |-> TRUE]      \* the tree as it is
+DevAll  == [uns |-> TRUE, tse |-> TRUE]      \* the tree before fix d19287e (today: uns off, tse on)
 DevNone == [uns |-> FALSE, tse |-> FALSE]    \* the design the property asks for
 
 NumME(m, e) == [k |-> "NumberLiteral", m |-> m, e |-> e]
